@@ -1041,6 +1041,10 @@ func (x *exec) copyOp(st *pstate, args []Val, argTypes []types.Type, in ssa.Inst
 func (x *exec) special(st *pstate, callee *ssa.Function, cc *ssa.CallCommon, args []Val, argTypes []types.Type, in ssa.Instruction) (Val, bool, bool) {
 	key := FuncKey(callee)
 	switch key {
+	case "log.Panicf", "log.Panic", "log.Panicln", "log.Fatalf", "log.Fatal", "log.Fatalln":
+		// like an explicit panic: the call must be unreachable
+		x.emit(st, x.ord[in], "panic", smt.False, in.Pos(), "explicit "+key+" is unreachable")
+		return nil, true, true
 	case "fmt.Errorf", "errors.New":
 		e := x.env.Fresh("errnew$", IfaceSort)
 		st.assume(smt.Neq(IfTyp(e), smt.IntLit(0)), "a new error is not nil")
